@@ -203,6 +203,12 @@ def documents(tier, seed):
         cat(('fill', [('t', 'lorem'), L, ('t', 'ipsum'), L]), ('t', '.')), g(cat(('fill', [b, L, c, L]), a)), ('fill', [b, L]), ('nest', 2, ('fill', [a, L, b, L, c, L, a, L, b])),
         cat(('t', '0123456789'), g(cat(a, L, a)), ('nest', 2, cat(H, ('t', 'x' * 14)))), g(cat(('t', 'x' * 9), L, a)),
         g(cat(a, L, a, H, a, L, ('t', 'dddddd'))),
+        # fills whose separators are not plain line breaks (the comment builder: a broken separator starts the next comment line)
+        ('fill', [('t', '# one'), ('fc', cat(H, ('t', '# ')), ('t', ' ')), ('t', 'two'), ('fc', cat(H, ('t', '# ')), ('t', ' ')), ('t', 'three')]),
+        cat(b, ('t', '  '), ('nest', 4, ('fill', [('t', '# aa'), ('fc', cat(H, ('t', '# ')), ('t', ' ')), ('t', 'bb'), ('fc', cat(H, ('t', '# ')), ('t', ' ')), ('t', 'cc'),
+                                                  ('fc', cat(H, ('t', '# ')), ('t', ' ')), ('t', 'dd')]))),
+        g(cat(a, L, ('fill', [b, ('fc', cat(('t', ';'), H), ('t', '; ')), c, ('fc', cat(('t', ';'), H), ('t', '; ')), a]))),
+        ('fill', [b, ('fc', ('t', '|'), ('t', ' ')), c, ('fc', ('t', '|'), ('t', ' ')), a]),
         cat(), ('t', ''), N, g(N), b, cat(b, c), g(cat(g(cat(g(cat(a, L, a)), L, a)), L, a)), cat(g(cat(b, L, c)), ('t', 'dddddd')),
         g(cat(b, L, c, ('nest', 8, cat(L, a)))), cat(g(cat(a, L, b)), ('nest', 3, cat(H, g(cat(c, L, c, L, c))))),
     ]
